@@ -1,7 +1,402 @@
-import ArchSim.Model.Asm
+/-
+C04 (back end) — RISC-V assembler: pseudo-instruction groups, labels, branch/jump displacements.
+
+Property theorems only (plus non-vacuity examples); helper lemmas live in `ArchSim/Lemmas/C04*.lean`
+(and `C05Li`, `C05Groups` for the groups shared with C05).
+
+Vocabulary (from the lemma files):
+* `emits it` — an expanded text entry produces an instruction: a group with a base-ISA mnemonic, or one
+  of the bare words `ecall` / `ebreak`;  `isLabel it` — it is a stand-alone label (any other bare
+  word);  `countE es` — the number of emitting entries of `es`.
+* `isPseudo it` — `nop`, `li`, `mv`, `la`/load/store by variable name;  `addrFree g` — no entry of `g`
+  refers to a label or to its own address.
+* `BuildSpec ls es addr instrs` — the specification of `buildInstrs` spelled out in
+  `instructions_in_order` below.
+* `runSeq`, `luiAddi`, `liInstrs` as in C05.
+-/
+import ArchSim.Lemmas.C04Ex
+
 namespace ArchSim.Props.C04
-open ArchSim.Asm
-/-- The lui/addi split leaves a low part below 4096. -/
-theorem hiLo_lo_lt (v : Int) : 0 ≤ (hiLo v).2 ∧ (hiLo v).2 < 4096 := by
-  simp only [hiLo]; omega
+open ArchSim ArchSim.Asm ArchSim.Rv ArchSim.Lemmas.C04 ArchSim.Lemmas.C05
+
+/-! ## 6  Pseudo-instructions: the same group wherever they occur, with the documented effect -/
+
+/-- Expansion is entry by entry: the expansion of `pre ++ e :: post` succeeds exactly when the three
+    parts expand, and is then `expand pre ++ group e ++ expand post`. -/
+theorem expansion_in_context (vars : Vars) (pre post : List TEntry) (e : TEntry) (R : List TEntry) :
+    expandAll vars (pre ++ e :: post) = .ok R ↔
+      ∃ P g Q, expandAll vars pre = .ok P ∧ expandOne vars e = .ok g ∧ expandAll vars post = .ok Q ∧
+        R = P ++ g ++ Q := by
+  rw [expandAll_append_ok]
+  constructor
+  · rintro ⟨A, B, hA, hB, rfl⟩
+    simp only [expandAll] at hB
+    cases hg : expandOne vars e with
+    | error x => rw [hg] at hB; cases hB
+    | ok g =>
+      cases hQ : expandAll vars post with
+      | error x => rw [hg, hQ] at hB; cases hB
+      | ok Q =>
+        rw [hg, hQ] at hB
+        cases hB
+        exact ⟨A, g, Q, hA, rfl, rfl, by simp⟩
+  · rintro ⟨P, g, Q, hP, hg, hQ, rfl⟩
+    exact ⟨P, g ++ Q, hP, by simp only [expandAll, hg, hQ], by simp⟩
+
+/-- The group depends only on the item and the variable table, not on the line: the same item on
+    another line `(k', line')` expands to the same items, and every entry of a group carries the line
+    number and text of its source line. -/
+theorem expansion_uniform (vars : Vars) (k k' : Nat) (line line' : String) (it : Item) (g : List TEntry)
+    (h : expandOne vars (k, line, it) = .ok g) :
+    expandOne vars (k', line', it) = .ok (g.map fun e => (k', line', e.2.2)) ∧
+      ∀ e ∈ g, e.1 = k ∧ e.2.1 = line :=
+  expandOne_relocate vars k k' line line' it g h
+
+/-- Entries that are not pseudo-instructions are passed through unchanged. -/
+theorem expansion_identity (vars : Vars) (k : Nat) (line : String) (it : Item) (h : isPseudo it = false) :
+    expandOne vars (k, line, it) = .ok [(k, line, it)] :=
+  expandOne_plain vars k line it h
+
+/-- The instruction objects built from a pseudo-instruction's group are the same for every label table
+    and every address: the group never refers to a label or to its own position. -/
+theorem pseudo_group_position_independent (vars : Vars) (k : Nat) (line : String) (it : Item) (g : List TEntry)
+    (hp : isPseudo it = true) (h : expandOne vars (k, line, it) = .ok g)
+    (ls ls' : Labels) (a a' : Int) :
+    buildInstrs ls g a = buildInstrs ls' g a' :=
+  buildInstrs_indep ls ls' g a a' (pseudo_group_addrFree vars k line it g hp h)
+
+/-- Building a concatenation: the second part is built at the address after the first part's
+    instructions (so a group in the middle of a listing is built exactly as on its own, shifted). -/
+theorem build_in_context (ls : Labels) (es₁ es₂ : List TEntry) (addr : Int) (i₁ : List Instr)
+    (h : buildInstrs ls es₁ addr = .ok i₁) :
+    buildInstrs ls (es₁ ++ es₂) addr = (buildInstrs ls es₂ (addr + 4 * (i₁.length : Int))).map (i₁ ++ ·) := by
+  rw [buildInstrs_append, h]; rfl
+
+/-- `nop` is `addi x0, x0, 0`, and executing it changes nothing at all. -/
+theorem nop_effect (vars : Vars) (ls : Labels) (addr : Int) (k : Nat) (line : String) (s : St) :
+    ∃ es, expandOne vars (k, line, .str "nop") = .ok es ∧
+      buildInstrs ls es addr = .ok [mkInstr .addi 0 0 0 0] ∧
+      behavior (mkInstr .addi 0 0 0 0) s = { st := s, fault := none } := by
+  refine ⟨_, expandOne_nop vars k line, ?_, behavior_nop s⟩
+  simp only [buildInstrs, instantiate_addi, Except.map]
+
+/-- `mv rd, rs` is `addi rd, rs, 0`; executing it writes the value of `rs` (a `UInt32`; the model reduces
+    it modulo 2^32, the identity on reachable states) to `rd` and changes nothing else. -/
+theorem mv_effect (vars : Vars) (ls : Labels) (addr : Int) (k : Nat) (line : String) (rd rs : Nat) (s : St) :
+    ∃ es, expandOne vars (k, line, .grp (.mv rd rs)) = .ok es ∧
+      buildInstrs ls es addr = .ok [mkInstr .addi rd rs 0 0] ∧
+      behavior (mkInstr .addi rd rs 0 0) s =
+        { st := { s with regs := Rv.setReg s.regs rd (s.regs rs % 4294967296) }, fault := none } := by
+  refine ⟨_, expandOne_mv vars k line rd rs, ?_, behavior_mv rd rs s⟩
+  simp only [buildInstrs, instantiate_addi, Except.map]
+
+/-- `mv` on a state whose registers are 32-bit values: `rd` (`0 < rd < 32`) receives exactly `rs`. -/
+theorem mv_copies (rd rs : Nat) (hrd : 0 < rd ∧ rd < 32) (s : St) (hs : s.regs rs < 4294967296) :
+    (behavior (mkInstr .addi rd rs 0 0) s).st.regs rd = s.regs rs ∧
+    (∀ r, r ≠ rd → (behavior (mkInstr .addi rd rs 0 0) s).st.regs r = s.regs r) := by
+  rw [behavior_mv]
+  simp only [St.setReg]
+  exact ⟨by rw [setReg_same _ _ _ hrd, Nat.mod_eq_of_lt hs], fun r hr => setReg_other _ _ _ _ hr⟩
+
+/-- `li rd, c` in context: the group has the documented effect for every constant (this is C05's
+    `li_value`, restated here for the group as it sits in a listing: built at any address with any
+    labels it is `liInstrs rd c`, and running it leaves `c mod 2^32` in `rd`). -/
+theorem li_effect (vars : Vars) (ls : Labels) (addr : Int) (k : Nat) (line : String) (rd : Nat) (c : Int)
+    (s : St) (h0 : s.regs 0 = 0) :
+    ∃ es, expandOne vars (k, line, .grp (.li rd c)) = .ok es ∧ buildInstrs ls es addr = .ok (liInstrs rd c) ∧
+      runSeq (liInstrs rd c) s = { st := { s with regs := Rv.setReg s.regs rd (wrapU c) }, fault := none } :=
+  ⟨_, expandOne_li vars k line rd c, build_li ls addr k line rd c, runSeq_li rd c s h0⟩
+
+/-- The lui/addi split used by `li`, `la` and the load/store pseudo-instructions leaves a low part in
+    `[0, 4096)` and a high part in `[0, 2^20]` (2^20 only when the constant's low 12 bits are ≥ 2048 and
+    its upper 20 bits are all ones; the `lui` constructor wraps it to 0). -/
+theorem hiLo_lo_lt (v : Int) :
+    0 ≤ (hiLo v).2 ∧ (hiLo v).2 < 4096 ∧ 0 ≤ (hiLo v).1 ∧ (hiLo v).1 ≤ 1048576 := by
+  simp only [hiLo]; split <;> omega
+
+/-! ## 7  Labels denote the address of the next emitted instruction -/
+
+/-- Stand-alone labels. If the label pass succeeds on an expanded listing `es` (started, as `load` does,
+    with no labels and address 0; any table of pending in-line labels), then every stand-alone label —
+    an entry `.str s` at position `p` with `s` not `ecall`/`ebreak` — is bound to
+    `4 × (number of instruction-producing entries strictly before p)`: the address of the next emitted
+    instruction. -/
+theorem label_denotes_next_instruction (es : List TEntry) (pending : List (Nat × String)) (ls : Labels)
+    (h : processLabels es pending [] 0 = .ok ls)
+    (p : Nat) (hp : p < es.length) (s : String) (hs : es[p].2.2 = .str s) (hne : s ≠ "ecall" ∧ s ≠ "ebreak") :
+    lookupLabel ls s = some (4 * (countE (es.take p) : Int)) := by
+  have := (processLabels_spec es pending [] ls 0 h).2.1 p hp s hs (by simp [isLabel, hne])
+  simpa using this
+
+/-- In-line labels. The label `l` that the pending table holds for source line `k` is bound exactly once,
+    at the FIRST expanded entry of line `k` (an instruction entry; a pseudo-instruction's group shares
+    its line number), to `4 × (number of instruction-producing entries strictly before it)` — the
+    address of the first instruction of the group, also when the line expands to several
+    instructions. -/
+theorem inline_label_denotes_first_instruction (es : List TEntry) (pending : List (Nat × String)) (ls : Labels)
+    (h : processLabels es pending [] 0 = .ok ls)
+    (k k0 : Nat) (l : String) (hpend : pending.find? (fun q => q.1 == k) = some (k0, l))
+    (p : Nat) (hp : p < es.length) (hk : es[p].1 = k) (hins : isLabel es[p].2.2 = false)
+    (hfirst : ∀ (q : Nat) (hq : q < p), (es[q]'(by omega)).1 = k → isLabel (es[q]'(by omega)).2.2 = true) :
+    lookupLabel ls l = some (4 * (countE (es.take p) : Int)) := by
+  have := (processLabels_spec es pending [] ls 0 h).2.2 k k0 l hpend p hp hk hins hfirst
+  simpa using this
+
+/-- In-line labels are bound ONCE. Let `g` be the group a line `k` with a pending in-line label `l` expands
+    to (non-empty, all entries of line `k`, none a stand-alone label — e.g. the two or three entries of
+    `foo: li x1, 100000` or `foo: lw x1, v`). Wherever the group stands, the label pass binds `l` to the
+    address `addr` of the group's first entry (failing only if `l` is already bound), consumes the pending
+    entry, and then only advances the address by `4 × (instructions of the group)`: the remaining entries
+    of the group bind nothing, so an expanding pseudo-instruction raises no spurious
+    `DuplicateLabelException`. -/
+theorem inline_label_bound_once (k : Nat) (g rest : List TEntry) (hne : g ≠ []) (pending : List (Nat × String))
+    (ls : Labels) (addr : Int) (hg : lineGroup k g) (k0 : Nat) (l : String)
+    (hp : pending.find? (fun p => p.1 == k) = some (k0, l)) :
+    processLabels (g ++ rest) pending ls addr =
+      match addLabel ls l addr k (g.head hne).2.1 with
+      | .error e => .error e
+      | .ok ls' => processLabels rest (pending.filter (fun p => p.1 != k)) ls' (addr + 4 * (countE g : Int)) :=
+  processLabels_group k g rest hne pending ls addr hg k0 l hp
+
+/-- The hypotheses of `inline_label_bound_once` hold for the group of every pseudo-instruction: it is
+    non-empty, its entries carry the line number of the source line and are instruction entries. -/
+theorem pseudo_group_is_line_group (vars : Vars) (k : Nat) (line : String) (it : Item) (g : List TEntry)
+    (hp : isPseudo it = true) (h : expandOne vars (k, line, it) = .ok g) : g ≠ [] ∧ lineGroup k g := by
+  obtain ⟨hne, hgrp⟩ := pseudo_group_grp vars k line it g hp h
+  refine ⟨hne, fun e he => ⟨((expandOne_relocate vars k k line line it g h).2 e he).1, ?_⟩⟩
+  obtain ⟨pi, hpi⟩ := hgrp e he
+  rw [hpi]; rfl
+
+/-- `addLabel` fails exactly when the name is already bound (`DuplicateLabelException`), and otherwise
+    appends the binding. -/
+theorem addLabel_spec (ls : Labels) (n : String) (v : Int) (k : Nat) (line : String) :
+    addLabel ls n v k line =
+      if (lookupLabel ls n).isSome then .error (.parser "DuplicateLabelException" k line)
+      else .ok (ls ++ [(n, v)]) := rfl
+
+/-- A label at the very end of the listing denotes `4 × (number of instructions)`. -/
+theorem label_at_end (es : List TEntry) (k : Nat) (line s : String) (pending : List (Nat × String)) (ls : Labels)
+    (hne : s ≠ "ecall" ∧ s ≠ "ebreak")
+    (h : processLabels (es ++ [(k, line, .str s)]) pending [] 0 = .ok ls) :
+    lookupLabel ls s = some (4 * (countE es : Int)) := by
+  have := label_denotes_next_instruction _ pending ls h es.length (by simp) s (by simp) hne
+  simpa using this
+
+/-- The instruction pass emits exactly the instruction-producing entries, in order, at addresses
+    0, 4, 8, …: if `buildInstrs ls es addr` succeeds with `instrs`, then
+    * `instrs.length = countE es`;
+    * a group entry at position `p` is instruction-producing, was instantiated at address
+      `addr + 4j` for `j = countE (es.take p)` (the number of instruction-producing entries before it)
+      and its object is `instrs[j]`;
+    * an `ecall` / `ebreak` word at position `p` gives its object at `instrs[j]` likewise;
+    * every entry is a bare word or a group (stand-alone labels emit nothing). -/
+theorem instructions_in_order (ls : Labels) (es : List TEntry) (addr : Int) (instrs : List Instr)
+    (h : buildInstrs ls es addr = .ok instrs) :
+    instrs.length = countE es ∧
+    (∀ (p : Nat) (hp : p < es.length) (pi : PInstr), es[p].2.2 = .grp pi →
+      emits (.grp pi) = true ∧
+      ∃ ins, instantiate ls (addr + 4 * (countE (es.take p) : Int)) es[p].1 es[p].2.1 pi = .ok ins ∧
+        instrs[countE (es.take p)]? = some ins) ∧
+    (∀ (p : Nat) (hp : p < es.length), es[p].2.2 = .str "ecall" →
+      instrs[countE (es.take p)]? = some { op := .ecall }) ∧
+    (∀ (p : Nat) (hp : p < es.length), es[p].2.2 = .str "ebreak" →
+      instrs[countE (es.take p)]? = some { op := .ebreak, imm := 1 }) ∧
+    (∀ (p : Nat) (hp : p < es.length), (∃ s, es[p].2.2 = .str s) ∨ (∃ pi, es[p].2.2 = .grp pi)) :=
+  buildInstrs_spec ls es addr instrs h
+
+/-- Instruction `j` of the listing sits at address `4j` of the instruction memory. -/
+theorem instruction_address (prog : List Instr) (c : Option ICache) (j : Nat) :
+    IMem.instrAt { prog := prog, cache := c } (4 * (j : Int)) = prog[j]? :=
+  instrAt_four_mul prog c j
+
+/-- Labels and instructions fit together: with the labels of the label pass, the instruction pass from
+    address 0 places the object of the first instruction-producing entry at or after a stand-alone
+    label exactly at the label's address. (`q` is the position of that entry: every entry between the
+    label and `q` emits nothing.) -/
+theorem label_points_at_instruction (es : List TEntry) (pending : List (Nat × String)) (ls : Labels)
+    (instrs : List Instr) (hl : processLabels es pending [] 0 = .ok ls) (hb : buildInstrs ls es 0 = .ok instrs)
+    (p : Nat) (hp : p < es.length) (s : String) (hs : es[p].2.2 = .str s) (hne : s ≠ "ecall" ∧ s ≠ "ebreak")
+    (q : Nat) (hq : q < es.length) (pi : PInstr) (hpi : es[q].2.2 = .grp pi)
+    (hsame : countE (es.take q) = countE (es.take p)) (c : Option ICache) :
+    ∃ a ins, lookupLabel ls s = some a ∧ instantiate ls a es[q].1 es[q].2.1 pi = .ok ins ∧
+      IMem.instrAt { prog := instrs, cache := c } a = some ins := by
+  have h1 := label_denotes_next_instruction es pending ls hl p hp s hs hne
+  obtain ⟨_, ins, hins, hget⟩ := (buildInstrs_spec ls es 0 instrs hb).2.1 q hq pi hpi
+  refine ⟨_, ins, h1, ?_, ?_⟩
+  · rw [← hsame]; simpa using hins
+  · rw [instrAt_four_mul, ← hsame]; exact hget
+
+/-! ## 8  Branch and jump operands encode the pc-relative displacement -/
+
+/-- B-type with a label operand (`label` or `label + 0x…`): the instruction at address `a` gets the
+    immediate `sext13 (L + offset − a)` where `L` is the label's address. -/
+theorem branch_label_displacement (ls : Labels) (a : Int) (k : Nat) (line : String) (mn : String) (op : Op)
+    (hop : Op.ofMnemonic mn = some op) (hty : op.ty = .b) (r1 r2 : Nat) (l : String) (off L : Int)
+    (hl : lookupLabel ls l = some L) :
+    instantiate ls a k line (.btypeLabel mn r1 r2 l off) =
+      .ok { op := op, rd := 0, rs1 := r1, rs2 := r2, imm := sextImm 13 (L + off - a), aux := 0 } :=
+  instantiate_btypeLabel ls a k line mn op hop hty r1 r2 l off L hl
+
+/-- An undefined label is rejected with `ParserLabelException`. -/
+theorem branch_label_unknown (ls : Labels) (a : Int) (k : Nat) (line : String) (mn : String) (op : Op)
+    (hop : Op.ofMnemonic mn = some op) (r1 r2 : Nat) (l : String) (off : Int) (hl : lookupLabel ls l = none) :
+    instantiate ls a k line (.btypeLabel mn r1 r2 l off) = .error (.parser "ParserLabelException" k line) :=
+  instantiate_btypeLabel_unknown ls a k line mn op hop r1 r2 l off hl
+
+/-- B-type with a numeric operand: an even number `n` is itself the displacement (stored sign-extended
+    to 13 bits, whatever the address); an odd number is rejected. -/
+theorem branch_number_displacement (ls : Labels) (a : Int) (k : Nat) (line : String) (mn : String) (op : Op)
+    (hop : Op.ofMnemonic mn = some op) (hty : op.ty = .b) (r1 r2 : Nat) (n : Int) :
+    instantiate ls a k line (.rri mn r1 r2 n) =
+      if n % 2 ≠ 0 then .error (.parser "ParserOddImmediateException" k line)
+      else .ok { op := op, rd := 0, rs1 := r1, rs2 := r2, imm := sextImm 13 n, aux := 0 } :=
+  instantiate_btypeImm ls a k line mn op hop hty r1 r2 n
+
+/-- `jal rd, N` with a number: `N` is an ABSOLUTE target; the stored immediate is `sext21 (N − a)` and the
+    printed target (`abs_addr`) is `N`; an odd number is rejected. -/
+theorem jal_number_displacement (ls : Labels) (a : Int) (k : Nat) (line : String) (rd : Nat) (n : Int) :
+    instantiate ls a k line (.jalImm rd n) =
+      if n % 2 ≠ 0 then .error (.parser "ParserOddImmediateException" k line)
+      else .ok { op := .jal, rd := rd, rs1 := 0, rs2 := 0, imm := sextImm 21 (n - a), aux := n } :=
+  instantiate_jalImm ls a k line rd n
+
+/-- `jal rd, label (+ offset)`: the stored immediate is `sext21 (L + offset − a)`, the printed target is
+    `L + offset`. -/
+theorem jal_label_displacement (ls : Labels) (a : Int) (k : Nat) (line : String) (rd : Nat) (l : String)
+    (off L : Int) (hl : lookupLabel ls l = some L) :
+    instantiate ls a k line (.jalLabel rd l off) =
+      .ok { op := .jal, rd := rd, rs1 := 0, rs2 := 0, imm := sextImm 21 (L + off - a), aux := L + off } :=
+  instantiate_jalLabel ls a k line rd l off L hl
+
+/-- Sign extension is the identity on the encodable range (±4 KiB for branches, ±1 MiB for `jal`); in
+    general the stored value is congruent to the displacement modulo 2^13 (2^21) and encodable. -/
+theorem displacement_encodable (d : Int) :
+    (-4096 ≤ d ∧ d < 4096 → sextImm 13 d = d) ∧ (-1048576 ≤ d ∧ d < 1048576 → sextImm 21 d = d) ∧
+    ((sextImm 13 d - d) % 8192 = 0 ∧ -4096 ≤ sextImm 13 d ∧ sextImm 13 d < 4096) ∧
+    ((sextImm 21 d - d) % 2097152 = 0 ∧ -1048576 ≤ sextImm 21 d ∧ sextImm 21 d < 1048576) :=
+  ⟨sext13_id d, sext21_id d, sext13_spec d, sext21_spec d⟩
+
+/-- A taken branch to a label transfers control to the label (plus offset). Precisely: let the
+    instruction memory (uncached) hold at `s.pc` the object `instantiate` built at address `s.pc` for
+    `mn r1, r2, l + off` (any of the six branch mnemonics), the label `l` be bound to `L`, the
+    displacement `L + off − pc` be encodable, and the branch condition hold. Then one single-cycle step
+    raises no fault, sets the pc to `(L + off) mod 2^32`, and changes no register and not the memory. -/
+theorem branch_taken_transfers (s : St) (ls : Labels) (k : Nat) (line : String) (mn : String) (op : Op)
+    (hop : Op.ofMnemonic mn = some op) (hty : op.ty = .b) (r1 r2 : Nat) (l : String) (off L : Int)
+    (hl : lookupLabel ls l = some L) (i : Instr)
+    (hi : instantiate ls s.pc k line (.btypeLabel mn r1 r2 l off) = .ok i)
+    (hrange : -4096 ≤ L + off - s.pc ∧ L + off - s.pc < 4096)
+    (hc : s.imem.cache = none) (hpc : 0 ≤ s.pc ∧ s.pc < 16384) (hat : s.imem.instrAt s.pc = some i)
+    (hcond : branchCond op (s.regs r1) (s.regs r2) = true) :
+    (singleStep s).fault = none ∧ (singleStep s).st.pc = (L + off) % 4294967296 ∧
+    (singleStep s).st.regs = s.regs ∧ (singleStep s).st.mem = s.mem := by
+  rw [instantiate_btypeLabel ls s.pc k line mn op hop hty r1 r2 l off L hl] at hi
+  cases hi
+  have hb := behavior_branch
+    { op := op, rd := 0, rs1 := r1, rs2 := r2, imm := sextImm 13 (L + off - s.pc), aux := 0 } hty
+    { s with cycles := s.cycles + 1, instrs := s.instrs + 1 }
+  simp only [hcond, if_true] at hb
+  rw [singleStep_of_behavior s _ hc hpc hat (by rw [hty]; decide) (by rw [hb])]
+  rw [hb, sext13_id _ hrange]
+  refine ⟨rfl, ?_, rfl, rfl⟩
+  show (s.pc + (L + off - s.pc - 4) + 4) % 4294967296 = (L + off) % 4294967296
+  congr 1; omega
+
+/-- The instance named in the property: `beq` with equal operands. -/
+theorem beq_taken_transfers (s : St) (ls : Labels) (k : Nat) (line : String) (r1 r2 : Nat) (l : String)
+    (off L : Int) (hl : lookupLabel ls l = some L) (i : Instr)
+    (hi : instantiate ls s.pc k line (.btypeLabel "beq" r1 r2 l off) = .ok i)
+    (hrange : -4096 ≤ L + off - s.pc ∧ L + off - s.pc < 4096)
+    (hc : s.imem.cache = none) (hpc : 0 ≤ s.pc ∧ s.pc < 16384) (hat : s.imem.instrAt s.pc = some i)
+    (heq : s.regs r1 = s.regs r2) :
+    (singleStep s).fault = none ∧ (singleStep s).st.pc = (L + off) % 4294967296 ∧
+    (singleStep s).st.regs = s.regs ∧ (singleStep s).st.mem = s.mem :=
+  branch_taken_transfers s ls k line "beq" .beq (by decide) rfl r1 r2 l off L hl i hi hrange hc hpc hat
+    (by simp [branchCond, heq])
+
+/-- A branch that is not taken falls through to `pc + 4`. -/
+theorem branch_not_taken_falls_through (s : St) (i : Instr) (hty : i.op.ty = .b)
+    (hc : s.imem.cache = none) (hpc : 0 ≤ s.pc ∧ s.pc < 16384) (hat : s.imem.instrAt s.pc = some i)
+    (hcond : branchCond i.op (s.regs i.rs1) (s.regs i.rs2) = false) :
+    (singleStep s).fault = none ∧ (singleStep s).st.pc = (s.pc + 4) % 4294967296 ∧
+    (singleStep s).st.regs = s.regs ∧ (singleStep s).st.mem = s.mem := by
+  have hb := behavior_branch i hty { s with cycles := s.cycles + 1, instrs := s.instrs + 1 }
+  simp only [hcond, Bool.false_eq_true, if_false] at hb
+  rw [singleStep_of_behavior s _ hc hpc hat (by rw [hty]; decide) (by rw [hb])]
+  rw [hb]
+  exact ⟨rfl, rfl, rfl, rfl⟩
+
+/-- `jal rd, label (+ offset)` transfers control to the label (plus offset) and links: under the same
+    assumptions as for branches (displacement within ±1 MiB), one single-cycle step raises no fault, sets
+    the pc to `(L + off) mod 2^32`, writes `pc + 4` to `rd` and leaves every other register and the
+    memory unchanged. -/
+theorem jal_label_transfers (s : St) (ls : Labels) (k : Nat) (line : String) (rd : Nat) (l : String)
+    (off L : Int) (hl : lookupLabel ls l = some L) (i : Instr)
+    (hi : instantiate ls s.pc k line (.jalLabel rd l off) = .ok i)
+    (hrange : -1048576 ≤ L + off - s.pc ∧ L + off - s.pc < 1048576)
+    (hc : s.imem.cache = none) (hpc : 0 ≤ s.pc ∧ s.pc < 16384) (hat : s.imem.instrAt s.pc = some i) :
+    (singleStep s).fault = none ∧ (singleStep s).st.pc = (L + off) % 4294967296 ∧
+    (singleStep s).st.regs = Rv.setReg s.regs rd (wrapU (s.pc + 4)) ∧ (singleStep s).st.mem = s.mem := by
+  rw [instantiate_jalLabel ls s.pc k line rd l off L hl] at hi
+  cases hi
+  have hb := behavior_jal
+    { op := .jal, rd := rd, rs1 := 0, rs2 := 0, imm := sextImm 21 (L + off - s.pc), aux := L + off } rfl
+    { s with cycles := s.cycles + 1, instrs := s.instrs + 1 }
+  rw [singleStep_of_behavior s _ hc hpc hat (by show Op.jal.ty ≠ Ty.memI; decide) (by rw [hb])]
+  rw [hb, sext21_id _ hrange]
+  refine ⟨rfl, ?_, rfl, rfl⟩
+  show (s.pc + (L + off - s.pc - 4) + 4) % 4294967296 = (L + off) % 4294967296
+  congr 1; omega
+
+/-- `jal rd, N` with an even number transfers control to the absolute address `N` (mod 2^32) when
+    `N − pc` is encodable. -/
+theorem jal_number_transfers (s : St) (ls : Labels) (k : Nat) (line : String) (rd : Nat) (n : Int)
+    (heven : n % 2 = 0) (i : Instr) (hi : instantiate ls s.pc k line (.jalImm rd n) = .ok i)
+    (hrange : -1048576 ≤ n - s.pc ∧ n - s.pc < 1048576)
+    (hc : s.imem.cache = none) (hpc : 0 ≤ s.pc ∧ s.pc < 16384) (hat : s.imem.instrAt s.pc = some i) :
+    (singleStep s).fault = none ∧ (singleStep s).st.pc = n % 4294967296 ∧
+    (singleStep s).st.regs = Rv.setReg s.regs rd (wrapU (s.pc + 4)) ∧ (singleStep s).st.mem = s.mem := by
+  rw [instantiate_jalImm ls s.pc k line rd n] at hi
+  simp only [heven, ne_eq, not_true_eq_false, if_false] at hi
+  cases hi
+  have hb := behavior_jal
+    { op := .jal, rd := rd, rs1 := 0, rs2 := 0, imm := sextImm 21 (n - s.pc), aux := n } rfl
+    { s with cycles := s.cycles + 1, instrs := s.instrs + 1 }
+  rw [singleStep_of_behavior s _ hc hpc hat (by show Op.jal.ty ≠ Ty.memI; decide) (by rw [hb])]
+  rw [hb, sext21_id _ hrange]
+  refine ⟨rfl, ?_, rfl, rfl⟩
+  show (s.pc + (n - s.pc - 4) + 4) % 4294967296 = n % 4294967296
+  congr 1; omega
+
+/-! ## Non-vacuity: a concrete listing
+
+```
+start:
+foo: li x5, 100000
+loop:
+beq x5, x0, end
+ecall
+jal x0, loop+0x4
+end:
+```
+-/
+
+-- expansion: the `li` with in-line label becomes two entries of line 2
+example : expandAll [] exSource = .ok exText := by rfl
+-- the label pass succeeds: `start` and the in-line `foo` denote the `lui` (0), `loop` the `beq` (8),
+-- the final `end` the address after the last instruction (20 = 4 × 5)
+example : processLabels exText exPending [] 0 = .ok exLabels := by rfl
+example : exLabels = [("start", 0), ("foo", 0), ("loop", 8), ("end", 20)] := rfl
+example : countE exText = 5 := by decide
+-- hypotheses of `inline_label_denotes_first_instruction` for `foo` (line 2, first entry at position 1)
+example : exPending.find? (fun q => q.1 == 2) = some (2, "foo") ∧ (exText[1]).1 = 2 ∧ isLabel (exText[1]).2.2 = false := by
+  decide
+-- the instruction pass: five objects; `beq` at 8 with displacement 20 − 8 = 12, `jal` at 16 with
+-- displacement (8 + 4) − 16 = −4 and printed target 12
+example : buildInstrs exLabels exText 0 = .ok exProg := by rfl
+example : exProg[2]? = some { op := .beq, rs1 := 5, rs2 := 0, imm := 12 }
+    ∧ exProg[4]? = some { op := .jal, rd := 0, imm := -4, aux := 12 } := by decide
+-- executing the program from a fresh state: after `lui; addi`, x5 = 100000, the branch is not taken
+example : ((runSeq (exProg.take 2) freshSt).st.regs 5) = 100000 := by decide
+
 end ArchSim.Props.C04
